@@ -20,8 +20,8 @@ CLAIMED = {
 
 CLAIMED['C04'] = dict(
     text='Kernel-checked refinement: Props.C04.exec_refines (Impl.serverExecute = RegisterFile.step for every request, '
-         'layout and state) and run_refines (every history, by induction), frame-rule and read-your-writes corollaries on the '
-         'spec; the model is compared with decode -> handler.execute of the real code on random histories each run, and the real '
+         'layout and state) and run_refines (every history, by induction), reset_refines + run_refines_with_resets (histories in which the application calls ModbusSlaveContext.reset() anywhere), frame-rule and read-your-writes corollaries on the '
+         'spec; the model is compared with decode -> handler.execute of the real code on random histories (with application-level ModbusSlaveContext.reset() steps in between) each run, and the real '
          'responses/table contents with the Lean register-file spec.',
     design='6/C04', technique='Lean 4 refinement proof (server execute = register file) + differential correspondence',
     note='Modelled not verified: ModbusBaseRequestHandler.execute catch-all as serverExecute; framers are covered by C03/C06/C09. '
@@ -30,7 +30,7 @@ CLAIMED['C05'] = dict(
     text='Kernel-checked: exception_no_change (an exception response implies the whole context is unchanged, any history), '
          'the decision table bad_value_gives_03 / bad_range_gives_02 / broken_gives_04 / unknown_fc_gives_01 / valid_gives_normal on the '
          'spec, tied to the implementation model by C04.exec_refines; boundary sweeps (quantities, addresses, byte counts, coil '
-         'words, unassigned function codes, raising datastores) run against the real code each run.',
+         'words, unassigned function codes, raising datastores) and invalid-heavy histories with reset() steps run against the real code each run.',
     design='6/C05', technique='Lean 4 invariant + decision-table proof + differential correspondence',
     note='A failing datastore is modelled as a table that raises on every access (exception 04, nothing changes).')
 
@@ -94,7 +94,7 @@ CLAIMED['C06'] = dict(
     text='Kernel-checked: chunking_independent — for each of the TCP, RTU, ASCII and binary receivers and ANY division of a stream of valid '
          'frames into chunks (every cut set, empty reads included, any number of frames) the deliveries are exactly the messages of the '
          'frames in order, no exception escapes and the buffer ends empty; proved by induction over the chunk list from two facts per '
-         'framer (a built frame is recognised whatever follows it; every proper prefix of it makes the receiver wait).',
+         'framer (a built frame is recognised whatever follows it; every proper prefix of it makes the receiver wait). The harness cuts streams of every message class (FIFO / file-record replies relative to what one frame per read delivers) at every position, byte by byte and at random cut sets.',
     design='6/C06', technique='Lean 4 induction over arrival schedules (generic receive loop + per-framer step lemmas) + differential correspondence',
     note='The framer state is modelled as its buffer (the header dict is recomputed from the buffer head); checked call by call against the real framers on every run.')
 CLAIMED['C07'] = dict(
